@@ -106,8 +106,7 @@ Definition T_stmt (r : list N) : Prop :=
       (pre ++ repeat 0 (S (length r)))
     = Some (pre ++ f :: r, rest).
 
-Lemma T_from_M r : (forall r', length r' = length r -> M_stmt r') ->
-  (forall g r', r = g :: r' -> T_stmt r') -> T_stmt r.
+Lemma T_from_M r : M_stmt r -> (forall g r', r = g :: r' -> T_stmt r') -> T_stmt r.
 Proof.
   intros HM HT pre f k fuel rest Hf Hr Hlen Hk Hnz Hk0 Hfuel.
   destruct fuel as [|fu].
@@ -121,7 +120,7 @@ Proof.
       by (rewrite <- app_assoc; reflexivity).
     replace (N.of_nat (length pre) + 1) with (N.of_nat (length (pre ++ [f]))) in *
       by (rewrite app_length; cbn [length]; lia).
-    rewrite (HM r eq_refl (pre ++ [f]) (N.of_nat (length pre)) f fu rest).
+    rewrite (HM (pre ++ [f]) (N.of_nat (length pre)) f fu rest).
     + rewrite <- app_assoc. reflexivity.
     + exact Hr.
     + rewrite app_length; cbn [length]; lia.
@@ -132,7 +131,7 @@ Proof.
     destruct r as [|g r']; [cbn [length] in Hk; lia|].
     replace (0 <? N.of_nat (S k')) with true by lia.
     replace (255 <=? N.of_nat (length pre)) with false by (cbn [length] in Hlen; lia).
-    cbn [index_from write_frequencies_go] in *.
+    cbn [index_from write_frequencies_go length repeat] in *. unfold itf8_of_freq in *.
     inversion Hr as [|? ? Hg Hr']; subst.
     cbn [firstn] in Hnz. inversion Hnz as [|? ? Hgnz Hnz']; subst.
     rewrite app_length in Hfuel. pose proof (itf8_enc_nonempty g) as Hne.
@@ -141,7 +140,7 @@ Proof.
     replace (N.of_nat (S k') - 1) with (N.of_nat k') by lia.
     replace (N.of_nat (length pre) + 1) with (N.of_nat (length (pre ++ [f]))) in *
       by (rewrite app_length; cbn [length]; lia).
-    rewrite <- app_assoc.
+    rewrite <- (app_assoc (itf8_enc g)).
     rewrite (HT g r' eq_refl (pre ++ [f]) g k' fu rest); try assumption.
     + rewrite <- app_assoc. reflexivity.
     + rewrite app_length; cbn [length] in *; lia.
@@ -154,13 +153,13 @@ Lemma M_step g r' : M_stmt r' -> T_stmt r' -> M_stmt (g :: r').
 Proof.
   intros HM HT pre i pf fu rest Hr Hlen Hi Hpf Hfuel.
   inversion Hr as [|? ? Hg Hr']; subst.
-  cbn [index_from write_frequencies_go] in *.
+  cbn [index_from write_frequencies_go length repeat] in *. unfold itf8_of_freq in *.
   destruct (g =? 0) eqn:Eg.
   - (* a symbol that does not occur: nothing is written *)
     assert (g = 0) as -> by lia.
     replace (N.of_nat (length pre) + 1) with (N.of_nat (length (pre ++ [0]))) in *
       by (rewrite app_length; cbn [length]; lia).
-    replace (pre ++ repeat 0 (length (0 :: r'))) with ((pre ++ [0]) ++ repeat 0 (length r'))
+    replace (pre ++ 0 :: repeat 0 (length r')) with ((pre ++ [0]) ++ repeat 0 (length r'))
       by (rewrite <- app_assoc; reflexivity).
     rewrite (HM (pre ++ [0]) i 0 fu rest); try assumption.
     + rewrite <- app_assoc. reflexivity.
@@ -168,7 +167,7 @@ Proof.
     + rewrite app_length; cbn [length]; lia.
     + rewrite app_length; cbn [length]. split; intros; lia.
   - assert (Hgnz : g <> 0) by lia.
-    replace (0 <? N.of_nat (length pre)) with true by lia. cbn [andb].
+    replace (0 <? N.of_nat (length pre)) with true in * by lia. cbn [andb] in *.
     destruct (0 <? pf) eqn:Epf.
     + (* the previous symbol occurs: symbol, run length, frequencies *)
       assert (Hadj : N.of_nat (length pre) = i + 1) by (apply Hpf; lia).
@@ -176,22 +175,20 @@ Proof.
       destruct (run_len_spec r') as [Hrl Hrnz].
       cbn [app rf0_mid]. replace (N.of_nat (length pre) =? i + 1) with true by lia.
       cbn [length] in Hfuel. rewrite app_length in Hfuel.
-      rewrite (HT pre g (run_len r') fu rest); try assumption; try reflexivity.
-      * cbn [length] in Hlen; lia.
-      * intros _. exact Hgnz.
-      * lia.
+      rewrite <- (app_assoc (itf8_enc g)).
+      change (0 :: repeat 0 (length r')) with (repeat 0 (S (length r'))).
+      rewrite (HT pre g (run_len r') fu rest);
+        try assumption; try reflexivity; try lia; try (intros _; exact Hgnz).
     + (* the previous symbol does not occur: symbol, frequency *)
       assert (Hnadj : N.of_nat (length pre) <> i + 1) by (intro Hc; apply Hpf in Hc; lia).
       cbn [app rf0_mid]. replace (N.of_nat (length pre) =? i + 1) with false by lia.
       replace (N.of_nat (length pre) =? 0) with false by lia.
       cbn [length] in Hfuel. rewrite app_length in Hfuel.
-      change 0 with (N.of_nat 0) at 2.
-      rewrite (HT pre g O fu rest); try assumption; try reflexivity.
-      * cbn [length] in Hlen; lia.
-      * cbn [length]; lia.
-      * constructor.
-      * intros _. exact Hgnz.
-      * lia.
+      rewrite <- (app_assoc (itf8_enc g)).
+      change (0 :: repeat 0 (length r')) with (repeat 0 (S (length r'))).
+      pose proof (HT pre g O fu rest) as HT0. cbn [N.of_nat] in HT0.
+      rewrite HT0;
+        try assumption; try reflexivity; try lia; try (intros _; exact Hgnz); try constructor.
 Qed.
 
 Lemma M_nil : M_stmt [].
@@ -203,32 +200,10 @@ Qed.
 Lemma MT_all : forall r, M_stmt r /\ T_stmt r.
 Proof.
   induction r as [|g r' [IHM IHT]].
-  - split; [exact M_nil|]. apply T_from_M.
-    + intros r' Hl. destruct r'; [exact M_nil|discriminate].
-    + intros g r' H; discriminate.
+  - split; [exact M_nil|]. apply T_from_M; [exact M_nil|]. intros g r' H; discriminate.
   - assert (HM : M_stmt (g :: r')) by (apply M_step; assumption).
-    split; [exact HM|]. apply T_from_M.
-    + (* same length, not necessarily the same list: redo the step generically *)
-      intros r2 Hl. destruct r2 as [|g2 r2]; [discriminate|].
-      cbn [length] in Hl. injection Hl as Hl.
-      (* M and T hold for every list of the length of r' by the same induction *)
-      revert g2 r2 Hl. clear HM.
-      assert (Hgen : forall n r, length r = n -> M_stmt r /\ T_stmt r).
-      { induction n as [|n IHn]; intros r0 Hr0.
-        - destruct r0; [|discriminate]. split; [exact M_nil|]. apply T_from_M.
-          + intros r3 Hl3. destruct r3; [exact M_nil|discriminate].
-          + intros ? ? H; discriminate.
-        - destruct r0 as [|g0 r0]; [discriminate|]. injection Hr0 as Hr0.
-          destruct (IHn r0 Hr0) as [HM0 HT0].
-          assert (HM1 : forall r3, length r3 = S n -> M_stmt r3).
-          { intros r3 Hl3. destruct r3 as [|g3 r3]; [discriminate|]. injection Hl3 as Hl3.
-            destruct (IHn r3 Hl3) as [HM3 HT3]. apply M_step; assumption. }
-          split; [apply HM1; cbn [length]; now rewrite Hr0|].
-          apply T_from_M.
-          + intros r3 Hl3. apply HM1. cbn [length] in Hl3. now rewrite Hl3, Hr0.
-          + intros g3 r3 Heq. injection Heq as _ Heq. subst r3. exact HT0. }
-      intros g2 r2 Hl. apply (Hgen (S (length r2)) (g2 :: r2) eq_refl).
-    + intros g3 r3 Heq. injection Heq as _ Heq. subst r3. exact IHT.
+    split; [exact HM|]. apply T_from_M; [exact HM|].
+    intros g3 r3 Heq. injection Heq as _ Heq. subst r3. exact IHT.
 Qed.
 
 (* ---------- the table round trip ---------- *)
@@ -298,8 +273,8 @@ Lemma take4_states a b c d rest :
 Proof.
   intros Hok.
   assert (Hlt : forall s, state_ok s -> s < 4294967296) by (unfold state_ok; intros; lia).
-  inversion Hok as [|? ? Ha H1]; inversion H1 as [|? ? Hb H2]; inversion H2 as [|? ? Hc H3];
-  inversion H3 as [|? ? Hd _]; subst.
+  inversion Hok as [|? ? Hka Hk1]; inversion Hk1 as [|? ? Hkb Hk2]; inversion Hk2 as [|? ? Hkc Hk3];
+  inversion Hk3 as [|? ? Hkd _]; subst.
   cbn [flat_map]. rewrite app_nil_r. rewrite <- !app_assoc. unfold take4_le32.
   rewrite take_le32_le32 by auto. rewrite take_le32_le32 by auto.
   rewrite take_le32_le32 by auto. rewrite take_le32_le32 by auto. reflexivity.
